@@ -751,8 +751,8 @@ Every definition below is produced by `tools/translate_dir.py` (called from tool
 fat/volume.rs; nothing here is written by hand.  Statements, loops, `?`, early returns, block references and the
 volume record are translated as in `Gen/FunsM.lean` (its pure helpers `BlockIdx_range`, `BlockIter_next`, ... are
 used from there, not repeated); Rust structs whose values are records of the model (`DirEntry`, `DirectoryInfo`)
-as in `Gen/FunsMgr.lean`.  `Props/C06GenM.lean`, `Props/C03GenM.lean` compare the definitions with
-`Model/Fat.lean`.
+as in `Gen/FunsMgr.lean`.  `Props/C06GenM.lean`, `Props/C03GenM.lean`, `Props/C09GenM.lean`, `Props/C06GenIter.lean`,
+`Props/C17GenM.lean` compare the definitions with `Model/Fat.lean` (and `Model/Mgr.lean` for the long names).
 
 ## Bindings (calls that are NOT translated here: the model's function of the same meaning, tied to the Rust
 text by the theorem named)
@@ -789,7 +789,22 @@ text by the theorem named)
   closure over the list `g` hands back, in order (`forEachCall`; the state is the tuple of the caller's variables
   the closure assigns, a call of the caller's own callback inside it appends to the caller's list).  This is exact
   for closures that do not touch the device or the volume (the two in fat/volume.rs do not): running them after `g`
-  instead of in between its steps changes nothing they can see.
+  instead of in between its steps changes nothing they can see.  After an `Err` of `g` the closure has not run at
+  all here: the caller's variables it assigns (the long-name buffer of `iterate_dir_lfn`) are NOT modelled after an
+  `Err`.
+* `enum` / `impl` items written inside a function body are items like the others.  An enum with payloads whose
+  values are values of a model inductive of the same shape (`SeqState`, table `VENUMS`): struct-like variants take
+  their fields in the order of the declaration (`SeqState::Remaining { csum, next }` is `SeqState.Remaining csum
+  next`); a method with `self` by value (`SeqState::update`) is a function of `self_`.
+* `match (a, b, c) { (true, 0x01, _) => .., (false, s, SeqState::Remaining { csum: c, next }) if g => .., _ => .. }`
+  on a tuple of names (also on one value of such an enum, `if let SeqState::Complete { csum } = st`): the arms in
+  order, each `if <literal tests> then (match <enum component> with | C x y => (if g then body else REST) | _ =>
+  REST) else REST` with REST the translation of the arms after it; the last arm must be a catch-all.
+* `lfn_buffer: &mut LfnBuffer` is a value of the model's `Lfn.Buf`, handed back next to the result like the other
+  `&mut` parameters; `b.clear()` is `b := Lfn.clear b`, `b.push(&frag)` is `b ← F.lift (Lfn.push b frag)` (a panic of
+  `push` is a panic), `b.as_str()` is `Lfn.asStr b` (BINDINGS to `Model/Lfn.lean`; `LfnBuffer` itself is tied in the
+  filename tier).  `name.csum()` of a `ShortFileName` is `Sfn.csum name` (`Props/C18Gen.csum_eq`).
+  `if let Some((a, b, c, d)) = x.lfn_contents()` binds the components of the payload.
 -/
 '''
 
